@@ -34,6 +34,10 @@ enum Mode {
     /// deviation-bounded choice of every chunk (whole delivery is the 0-deviation run)
     Choose,
     Drip,
+    /// the whole body as one DATA frame
+    Whole,
+    /// large fixed blocks
+    Blocks,
 }
 
 #[derive(Clone, Debug)]
@@ -47,6 +51,8 @@ struct Case {
     err_at: Option<(usize, bool)>, // (offset, cancelled?)
     mode: Mode,
     origin: &'static str,
+    /// receiver's message size limit (None = the 4 MiB default)
+    limit: Option<usize>,
 }
 
 fn trailers(t: Trl) -> Option<HeaderMap> {
@@ -78,6 +84,10 @@ fn valid_prefix(c: &Case) -> (Vec<Vec<u8>>, bool) {
     let mut out = vec![];
     let mut clean = end == ParseEnd::Clean;
     for f in frames {
+        if f.payload.len() > c.limit.unwrap_or(4 * 1024 * 1024) {
+            clean = false;
+            break;
+        }
         let payload = if f.flag == 1 {
             match c.enc {
                 None => {
@@ -148,6 +158,8 @@ fn body(c: &Case, ch: &Chooser) -> Outcome {
     let chunking = match c.mode {
         Mode::Choose => Chunking::Choose { free: false, pending: true, empty: true },
         Mode::Drip => Chunking::Fixed(vec![1]),
+        Mode::Whole => Chunking::Fixed(vec![]),
+        Mode::Blocks => Chunking::Fixed(vec![16384, 3, 40000]),
     };
     let mut sb = ScriptBody::new(c.input.clone(), trailers(c.trl), chunking, ch);
     if let Some((at, cancelled)) = c.err_at {
@@ -160,17 +172,17 @@ fn body(c: &Case, ch: &Chooser) -> Outcome {
     let (evs, stalled) = if c.prost {
         let dec = ProstCodec::<PMsg, PMsg>::raw_decoder(settings);
         let s = match c.dir {
-            Dir::Request => Streaming::new_request(dec, sb, enc, None),
-            Dir::Resp200 => Streaming::new_response(dec, sb, StatusCode::OK, enc, None),
-            Dir::Resp400 => Streaming::new_response(dec, sb, StatusCode::BAD_REQUEST, enc, None),
+            Dir::Request => Streaming::new_request(dec, sb, enc, c.limit),
+            Dir::Resp200 => Streaming::new_response(dec, sb, StatusCode::OK, enc, c.limit),
+            Dir::Resp400 => Streaming::new_response(dec, sb, StatusCode::BAD_REQUEST, enc, c.limit),
         };
         drive(s, pmsg_wire)
     } else {
         let dec = RawCodec::new(settings).decoder();
         let s = match c.dir {
-            Dir::Request => Streaming::new_request(dec, sb, enc, None),
-            Dir::Resp200 => Streaming::new_response(dec, sb, StatusCode::OK, enc, None),
-            Dir::Resp400 => Streaming::new_response(dec, sb, StatusCode::BAD_REQUEST, enc, None),
+            Dir::Request => Streaming::new_request(dec, sb, enc, c.limit),
+            Dir::Resp200 => Streaming::new_response(dec, sb, StatusCode::OK, enc, c.limit),
+            Dir::Resp400 => Streaming::new_response(dec, sb, StatusCode::BAD_REQUEST, enc, c.limit),
         };
         drive(s, |m: &Vec<u8>| m.clone())
     };
@@ -281,6 +293,7 @@ fn cases(tier: Tier) -> Vec<Case> {
                     err_at: None,
                     mode,
                     origin: "raw",
+                    limit: None,
                 });
             }
         }
@@ -334,6 +347,7 @@ fn cases(tier: Tier) -> Vec<Case> {
                         err_at: None,
                         mode: *mode,
                         origin,
+                        limit: None,
                     });
                 }
             }
@@ -362,6 +376,7 @@ fn cases(tier: Tier) -> Vec<Case> {
                                 err_at: Some((at, cancelled)),
                                 mode,
                                 origin: "body-error",
+                                limit: None,
                             });
                         }
                     }
@@ -369,15 +384,43 @@ fn cases(tier: Tier) -> Vec<Case> {
             }
         }
     }
+    // (d) a size limit on the receiver, between the on-the-wire and the decompressed length of a
+    // well compressible message (the limit applies to the former: the message is delivered whole),
+    // below both, and above both
+    for enc in [Some(Enc::Gzip), Some(Enc::Deflate), Some(Enc::Zstd), None] {
+        for prost in [false, true] {
+            let big = vec![0u8; 300];
+            let stream = valid_stream(&[vec![7], big.clone(), vec![1, 2, 3]], enc, prost);
+            let (frames, _) = wire::parse_frames(&stream, &[0, 1]);
+            let wire_len = frames[1].payload.len();
+            for limit in [wire_len - 1, wire_len, wire_len + 40, 100_000] {
+                for dir in [Dir::Request, Dir::Resp200] {
+                    out.push(Case { input: stream.clone(), prost, enc, dir, trl: Trl::Ok, err_at: None, mode: Mode::Choose, origin: "limited", limit: Some(limit) });
+                }
+            }
+        }
+    }
+    // (e) small messages around one of 70 000 bytes (receive buffers beyond 64 KiB), the small ones
+    // shaped like frame prefixes so that a misaligned reader would yield them as messages
+    for prost in [false, true] {
+        let looks_like_frame = vec![0u8, 0, 0, 0, 2, 0x61, 0x62];
+        let stream = valid_stream(&[looks_like_frame.clone(), payload(70_000, 1), vec![9], looks_like_frame.clone()], None, prost);
+        for dir in [Dir::Request, Dir::Resp200] {
+            for mode in [Mode::Whole, Mode::Blocks] {
+                out.push(Case { input: stream.clone(), prost, enc: None, dir, trl: Trl::Ok, err_at: None, mode, origin: "large-buffer", limit: None });
+                out.push(Case { input: stream[..stream.len() - 3].to_vec(), prost, enc: None, dir, trl: Trl::Ok, err_at: None, mode, origin: "large-buffer-truncated", limit: None });
+            }
+        }
+    }
     out
 }
 
 pub fn property(tier: Tier) -> Property {
-    let rule = "cases: every byte string of length <= N over {00,01,02,05,80,ff} and every truncation/substitution/deletion/duplication of valid 1-3 message streams (identity/gzip/deflate/zstd; raw and prost decoders), x direction x trailers x injected body errors; environment: every chunking with <= bound cuts/Pending/empty-frame deviations plus byte-by-byte drip; polled 5 more times after the first terminal event. Non-trivial = input is not a clean valid stream (malformed, truncated, body error, or non-OK trailers); distinct = distinct (case, choice vector)";
+    let rule = "cases: every byte string of length <= N over {00,01,02,05,80,ff} and every truncation/substitution/deletion/duplication of valid 1-3 message streams (identity/gzip/deflate/zstd; raw and prost decoders), x direction x trailers x injected body errors, plus valid streams read under a receiver size limit placed below / at / between / above the on-the-wire and the decompressed length of a well compressible message, plus small frame-shaped messages around a 70 000-byte one delivered whole / in large blocks (complete and truncated); environment: every chunking with <= bound cuts/Pending/empty-frame deviations plus byte-by-byte drip; polled 5 more times after the first terminal event. Non-trivial = input is not a clean valid stream (malformed, truncated, body error, or non-OK trailers); distinct = distinct (case, choice vector)";
     let describe = |c: &Case| {
         format!(
-            "{} input={} prost={} enc={} dir={:?} trailers={:?} err_at={:?} mode={:?}",
-            c.origin, hex(&c.input), c.prost, enc_name(c.enc), c.dir, c.trl, c.err_at, c.mode
+            "{} input={} prost={} enc={} dir={:?} trailers={:?} err_at={:?} mode={:?} limit={:?}",
+            c.origin, crate::explore::truncate(&hex(&c.input), 160), c.prost, enc_name(c.enc), c.dir, c.trl, c.err_at, c.mode, c.limit
         )
     };
     let all = cases(tier);
